@@ -29,20 +29,26 @@ let label_name = function
   | Tachk -> "_achk" | Thquit -> "_hquit" | Tkinit -> "_kinit" | Tkquit -> "_kquit" | Tktake -> "_ktake"
   | Tkabort -> "_kabort" | Tkres -> "_kres" | Tkpush -> "_kpush" | Tkchk -> "_kchk" | Tswait -> "_swait"
 
-type scen = { name : string; blocks : int; reqs : string; rst : string; stop : bool }
+(* pre: blocks the harness mines before Start so that an import really needs t_more+1 batches;
+   cap: at most that many schedules of the scenario are replayed on the real code (0 = none: the
+   scenario is enumerated as model-checking evidence only) *)
+type scen = { name : string; blocks : int; reqs : string; rst : string; stop : bool; pre : int; cap : int }
 let scenarios tier =
   let base = [
-    { name = "b1-i0-stop"; blocks = 1; reqs = "i0"; rst = ""; stop = true };
-    { name = "b1-r0-stop"; blocks = 1; reqs = "r0"; rst = ""; stop = true };
-    { name = "i0-r0-stop"; blocks = 0; reqs = "i0,r0"; rst = ""; stop = true };
-    { name = "b2-stop"; blocks = 2; reqs = ""; rst = ""; stop = true };
-    { name = "b1-i0-r0"; blocks = 1; reqs = "i0,r0"; rst = ""; stop = false };
+    { name = "b1-i0-stop"; blocks = 1; reqs = "i0"; rst = ""; stop = true; pre = 0; cap = max_int };
+    { name = "b1-r0-stop"; blocks = 1; reqs = "r0"; rst = ""; stop = true; pre = 0; cap = max_int };
+    { name = "i0-r0-stop"; blocks = 0; reqs = "i0,r0"; rst = ""; stop = true; pre = 0; cap = max_int };
+    { name = "b2-stop"; blocks = 2; reqs = ""; rst = ""; stop = true; pre = 0; cap = max_int };
+    { name = "b1-i0-r0"; blocks = 1; reqs = "i0,r0"; rst = ""; stop = false; pre = 0; cap = max_int };
   ] in
   if tier = "thorough" then base @ [
-    { name = "b1-i0-r0-stop"; blocks = 1; reqs = "i0,r0"; rst = ""; stop = true };
-    { name = "b2-r0-stop"; blocks = 2; reqs = "r0"; rst = ""; stop = true };
-    { name = "b2-i1"; blocks = 2; reqs = "i1"; rst = ""; stop = false };
-    { name = "i1-r1-stop"; blocks = 0; reqs = "i1,r1"; rst = ""; stop = true };
+    { name = "b1-i0-r0-stop"; blocks = 1; reqs = "i0,r0"; rst = ""; stop = true; pre = 0; cap = max_int };
+    { name = "b2-r0-stop"; blocks = 2; reqs = "r0"; rst = ""; stop = true; pre = 0; cap = max_int };
+    (* a two-batch import needs a chain of more than 1000 blocks: a few schedules only *)
+    { name = "b2-i1"; blocks = 2; reqs = "i1"; rst = ""; stop = false; pre = 1003; cap = 24 };
+    { name = "b1-i1-stop"; blocks = 1; reqs = "i1"; rst = ""; stop = true; pre = 1003; cap = 24 };
+    (* two removal rounds need more than 20000 credits: enumerated only *)
+    { name = "i1-r1-stop"; blocks = 0; reqs = "i1,r1"; rst = ""; stop = true; pre = 0; cap = 0 };
   ] else base
 
 let init_of c (sc : scen) =
@@ -181,11 +187,11 @@ let () =
         (* deterministic sample: shuffle with the seeded generator, keep the first [per] *)
         for i = n - 1 downto 1 do
           let j = Random.int (i + 1) in let t = arr.(i) in arr.(i) <- arr.(j); arr.(j) <- t done;
-        let k = min per n in
+        let k = min (min per n) sc.cap in
         Printf.printf "P scenario=%s projections=%d emitted=%d\n" sc.name n k;
         for i = 0 to k - 1 do
-          Printf.printf "S id=%s/%d blocks=%d reqs=%s stop=%d seq=%s\n" sc.name i sc.blocks
-            (if sc.reqs = "" then "-" else sc.reqs) (if sc.stop then 1 else 0) arr.(i)
+          Printf.printf "S id=%s/%d blocks=%d reqs=%s stop=%d pre=%d seq=%s\n" sc.name i sc.blocks
+            (if sc.reqs = "" then "-" else sc.reqs) (if sc.stop then 1 else 0) sc.pre arr.(i)
         done) scs
   | "check" ->
     (try while true do
@@ -193,7 +199,7 @@ let () =
          if String.length line > 2 && String.sub line 0 2 = "R " then begin
            let g k d = match field line k with Some v -> v | None -> d in
            let sc = { name = g "id" "?"; blocks = int_of_string (g "blocks" "0"); reqs = g "reqs" "-";
-                      rst = g "restart" "-"; stop = (g "stop" "0" = "1") } in
+                      rst = g "restart" "-"; stop = (g "stop" "0" = "1"); pre = 0; cap = 0 } in
            let obs = match g "obs" "" with "" | "-" -> [] | s -> String.split_on_char ',' s in
            let outcome = g "outcome" "?" in
            let res found =
